@@ -7,21 +7,6 @@ namespace Dnssec
 
 /-! ## specification side -/
 
-/-- a delegation point as `_sign_zone_nsec` recognises it: has NS, is not the origin (and, because the code
-tests the remembered name for truthiness, is not the empty name) -/
-def isCut (c : NsecConsts) (origin : Name) (z : ZNode) : Bool :=
-  z.types.contains c.tNS && !(nameEq z.name origin) && truthy z.name
-
-def subOf (y d : ZNode) : Bool := isSubdomain y.name d.name
-
-/-- `z` lies strictly beneath a delegation point of the zone -/
-def occluded (c : NsecConsts) (origin : Name) (L : List ZNode) (z : ZNode) : Bool :=
-  L.any fun d => isCut c origin d && subOf z d && !subOf d z
-
-/-- the names that get an NSEC: those not beneath a delegation, in the order of the sorted list -/
-def secure (c : NsecConsts) (origin : Name) (L : List ZNode) : List ZNode :=
-  L.filter fun z => !occluded c origin L z
-
 abbrev NsecRec := Name × Name × List (Nat × Bytes)
 
 /-- the NSEC chain over a list of nodes: each points to the next, the last one to `last` (the origin);
@@ -36,14 +21,6 @@ def nsecsOf (es : List Evt) : List NsecRec :=
   es.filterMap fun e => match e with
     | .nsec o n w => some (o, n, w)
     | .sign _ _ => none
-
-/-- subdomains of `d` among the later names form one block directly after `d` -/
-def blockOk (d : ZNode) (rest : List ZNode) : Bool :=
-  (rest.dropWhile fun y => subOf y d).all fun y => !subOf y d
-
-def contig : List ZNode → Bool
-  | [] => true
-  | d :: rest => blockOk d rest && contig rest
 
 /-! ## the walk as a function of the remembered delegation only -/
 
